@@ -129,8 +129,8 @@ def _timeline(parts, bpm0, tempo_part=0):
                 for (n, o, c, vel) in e["notes"]:
                     evs.append((t, "on", T.pitch(n, o) + 12, c, vel))
                     evs.append((t + ln, "off", T.pitch(n, o) + 12, c, None))
-                if "bpm" in e and k == tempo_part:
-                    segs.append((t, e["bpm"]))
+            if "bpm" in e and k == tempo_part:  # also on an empty container: a tempo mark on a silent beat
+                segs.append((t, e["bpm"]))
             t += ln
         end = max(end, t)
     segs.sort(key=lambda x: x[0])
@@ -351,7 +351,7 @@ OBS = ["none", "once", "twice", "detached", "two"]
 
 def _cfg(**kw):
     base = dict(groups=SG.plain_groups(bases=(1, 2, 4, 8, 16, 32), max_dots=2), min_pitch=0, max_pitch=135, octaves=list(range(0, 11)), bpm_p=5, bpms=st.integers(30, 300),
-                max_bars=3, max_groups=5, max_chord=4, rest_p=4, partial_last=True, instruments=["none"], twin_p=5,
+                max_bars=3, max_groups=5, max_chord=4, rest_p=4, partial_last=True, instruments=["none"], twin_p=5, empty_containers=True, bpm_on_empty=True,
                 meters=[[4, 4], [3, 4], [6, 8], [2, 2], [5, 4], [2, 4], [7, 8], [3, 8]])
     base.update(kw)
     return SG.Cfg(**base)
